@@ -12,7 +12,7 @@ Decided clauses:
   * R-WIDTH (8/16-bit digits) no comparison/shift/division on an untruncated wrap-sensitive digit expression
 Not decided: numerical exactness of results.
 """
-from rules import driver, core, r_err, r_mpt, r_range, ts_bn, r_carry, r_dim
+from rules import driver, core, r_err, r_mpt, r_range, ts_bn, r_carry, r_dim, r_loopvar
 from rules.core import key, const_val, walk
 from props import common, fixtures, memsafe
 
@@ -342,7 +342,7 @@ def run(rep, tier):
     us = driver.load_units(specs)
     rep.use_units(us)
     first = True
-    n_err = n_ts = n_div = n_sh = n_carry = n_dim = 0
+    n_err = n_ts = n_div = n_sh = n_carry = n_dim = n_fresh = 0
     for (l, d, w) in cs:
         u = us[l]
         S, _ = r_err.status_functions(u)
@@ -359,6 +359,9 @@ def run(rep, tier):
             wide_shift_rule(rep, fn)
             memsafe.tail_fill_rule(rep, fn)
             memsafe.unguarded_write_rule(rep, fn)
+            nf_ = r_loopvar.check(rep, [fn])
+            if first:
+                n_fresh += nf_
             nd = r_dim.check(rep, u, [fn], ("BN_DIGIT_BITS", "BN_BIT_LEN", "BN_DIGIT_BIT_CNT"), ("BN_DIGIT_SIZE",))
             if first:
                 n_dim += nd
@@ -376,6 +379,7 @@ def run(rep, tier):
     rep.floor("variable shifts", n_sh, 15)
     rep.floor("carry/borrow stores", n_carry, 5)
     rep.floor("bit/byte dimensioned expressions", n_dim, 20)
+    rep.floor("per-iteration temporaries read in loops", n_fresh, 3)
     rep.floor("pure-result three-operand routines", alias_rule(rep, us[cs[0][0]]), 2)
     return driver.finish(
         rep, "other",
